@@ -593,14 +593,20 @@ impl Interp {
         }
     }
 
-    /// The survivor's cleanup: until no foreign node is listed (or 3 s have passed): list, run
-    /// try_remove_stale_resources on every Dead one.  Prints one `C` line per round that changed.
+    /// The survivor's cleanup: until no foreign node is listed (or 1.5 s have passed): list, run
+    /// try_remove_stale_resources on every Dead one.  A dead node whose details file is gone is first
+    /// cleaned through the public API; when that reports ResourcesAlreadyCleanedUp although the node is still
+    /// listed (the public API then works on Config::global_config() instead of the listing's config) the
+    /// survivor says so (`fallback:y`) and continues through the hidden entry point that takes the details
+    /// explicitly, so that the rest of the cleanup is still exercised.
     fn cleanup(&mut self) -> String {
         let t0 = std::time::Instant::now();
         let mut rounds = 0;
         let mut results: Vec<String> = vec![];
         let mut last = String::new();
         let mut seen_dead = 0;
+        let mut fallback = false;
+        let mut stuck_public: Vec<String> = vec![];
         loop {
             rounds += 1;
             let v = match self.foreign_states() {
@@ -617,24 +623,39 @@ impl Interp {
             if v.is_empty() {
                 break;
             }
+            if rounds > 3 && t0.elapsed() > Duration::from_millis(1500) {
+                return format!("STUCK:states:[{}]:fallback:{}:results:{:?}", last, if fallback { "y" } else { "n" }, results).replace(' ', "");
+            }
             for (id, st) in v {
                 if let NodeState::Dead(view) = st {
                     seen_dead += 1;
                     let has_details = view.details().is_some();
-                    let r = match view.try_remove_stale_resources() {
-                        Ok(()) => "ok".to_string(),
-                        Err(e) => compact(&e),
+                    let nid = *view.id();
+                    let r = if !has_details && stuck_public.contains(&id) {
+                        fallback = true;
+                        let d = iceoryx2::node::NodeDetails::__internal_new(&None, &self.config);
+                        match iceoryx2::node::DeadNodeView::<S>::__internal_try_remove_stale_resources(nid, d) {
+                            Ok(()) => "ok".to_string(),
+                            Err(e) => compact(&e),
+                        }
+                    } else {
+                        match view.try_remove_stale_resources() {
+                            Ok(()) => "ok".to_string(),
+                            Err(e) => compact(&e),
+                        }
                     };
-                    say(&format!("C cleanup node {} details={} -> {}", id, has_details, r));
-                    if !results.contains(&r) { results.push(r); }
+                    if !has_details && r == "ResourcesAlreadyCleanedUp" && !stuck_public.contains(&id) {
+                        stuck_public.push(id.clone());
+                    }
+                    if !results.contains(&r) {
+                        say(&format!("C cleanup node details={} fallback={} -> {}", has_details, fallback, r));
+                        results.push(r);
+                    }
                 }
             }
-            if t0.elapsed() > Duration::from_millis(3000) {
-                return format!("STUCK:states:[{}]:dead_seen:{}:results:{:?}", last, seen_dead, results).replace(' ', "");
-            }
-            std::thread::sleep(Duration::from_millis(10));
+            std::thread::sleep(Duration::from_millis(5));
         }
-        format!("clean:rounds:{}:dead_seen:{}:results:{:?}", if rounds > 1 { "n" } else { "1" }, if seen_dead > 0 { "y" } else { "n" }, results).replace(' ', "")
+        format!("clean:dead_seen:{}:fallback:{}:results:{:?}", if seen_dead > 0 { "y" } else { "n" }, if fallback { "y" } else { "n" }, results).replace(' ', "")
     }
 }
 
